@@ -56,7 +56,7 @@ def cfg64 : Cfg := Cfg.ofFmt binary64 (2 ^ 64)
 /-- well-formedness shared by the three dtypes -/
 structure Cfg.WF (c : Cfg) : Prop where
   mn_pos : 2 ≤ c.mn
-  mn_inf : c.mn < c.inf
+  mn_inf : c.mn + 2 ≤ c.inf
   inf_sb : 2 * c.inf < 2 * c.sb     -- room for NaN patterns above inf
   nan_sb : c.inf + c.mn / 2 < c.sb
   cap_ge : 6 ≤ c.cap
@@ -314,9 +314,15 @@ def tripleSamples {α} (s1 s2 s3 : List α) : List α × List α × List α :=
 `complex_samples` (NaN payloads aside): `-0.0` becomes `+0.0`, everything else is unchanged. -/
 def addZero (c : Cfg) (b : Nat) : Nat := if b = c.negZero then 0 else b
 
-/-- `complex_samples` on the two 1-D lists: row `j`, column `i` holds `re[i] + 1j * im[j]`. -/
+/-- `complex_samples` on the two 1-D lists (components as bit patterns):
+`real_part = re.reshape((-1, re.size)).repeat(im.size, 0).astype(complex_dtype)` is `im.size` rows, each
+`re` with imaginary parts `+0.0`; `imag_part` has in row `j` `re.size` copies of `0.0 + im[j]·1j`;
+the result is `real_part + imag_part`, a componentwise float addition in which one operand is `+0.0`
+(`addZero`).  Row `j`, column `i` therefore holds `(re[i] + 0.0) + (0.0 + im[j])·1j`. -/
 def complexGrid (c : Cfg) (re im : List Nat) : List (List (Nat × Nat)) :=
-  im.map fun y => re.map fun x => (addZero c x, addZero c y)
+  let realPart : List (List (Nat × Nat)) := List.replicate im.length (re.map fun x => (x, 0))
+  let imagPart : List (List (Nat × Nat)) := im.map fun y => List.replicate re.length (0, y)
+  List.zipWith (List.zipWith fun a b => (addZero c a.1, addZero c b.2)) realPart imagPart
 
 /-- `complex_pair_samples` on two grids: `numpy.tile(s1, shape2)` and
 `s2.repeat(shape1[0], 0).repeat(shape1[1], 1)` -/
